@@ -15,13 +15,13 @@ class FPSelfCompare:
     def __init__(self, tier='quick', part=0, nparts=1, seed=0):
         self.tier, self.part, self.nparts, self.seed = tier, part, nparts, seed
         self.name = 'fp:self_compare:%d/%d' % (part, nparts)
-        self.cap = 25 if tier == 'quick' else 180
+        self.cap = 25 if tier == 'quick' else 100
         rnd = random.Random(seed)
         cells = []
         for kind in si.KINDS:
             us = si.units_of(kind)
             pairs = [(a, b) for a in us for b in us if a != b]
-            for p in rnd.sample(pairs, min(len(pairs), 1 if tier == 'quick' else 5)):
+            for p in rnd.sample(pairs, min(len(pairs), 1 if tier == 'quick' else 3)):
                 cells.append((kind,) + p)
         self.cells = [c for i, c in enumerate(cells) if i % nparts == part]
 
